@@ -47,6 +47,11 @@ type btr struct {
 	hostVar     string            // osc() 11: `rgb := vt.vx.QueryBackground().Params()`
 	respVar     string            // osc() 11: `resp := fmt.Sprintf(…)`
 	decVar      string            // osc() 52: decoded bytes
+	consts      map[string]int64  // package-level int constants usable as literals (csi(): maxParam)
+	pmAllSlice  string            // csi(): `param` of `for _, param := range params { for i, p := range param {…} }`
+	pmAllIdx    string            // csi(): `i`
+	pmAllVal    string            // csi(): `p`
+	replyMode   bool              // inline arms of the dispatchers that only answer the child (DA, DSR) or post an event (BEL)
 	unknown     int
 }
 
@@ -109,8 +114,16 @@ func (t *btr) expr(e ast.Expr) (string, bool) {
 		if k := t.loopIndex(x.Name); k >= 0 {
 			return fmt.Sprintf("(.lv %d)", k), true
 		}
+		if t.pmAllVal != "" && x.Name == t.pmAllVal {
+			return ".pcur", true
+		}
 		if l, ok := t.loc(x); ok {
 			return "(.loc " + l + ")", true
+		}
+		if v, ok := t.consts[x.Name]; ok {
+			if _, shadow := t.locals[x.Name]; !shadow {
+				return fmt.Sprintf("(.lit %d)", v), true
+			}
 		}
 		return "", false
 	case *ast.SelectorExpr:
@@ -714,6 +727,9 @@ func (t *btr) rangeStmt(s *ast.RangeStmt) string {
 	if r, ok := t.paramRange(s); ok {
 		return r
 	}
+	if r, ok := t.pmAllRange(s); ok {
+		return r
+	}
 	// for v := range vt.activeScreen
 	if s.Tok != token.DEFINE || s.Value != nil || s.Key == nil || t.src(s.X) != "vt.activeScreen" {
 		return t.unk(s)
@@ -944,6 +960,37 @@ func (t *btr) assign(s *ast.AssignStmt) string {
 			if t.hostVar != "" && t.respVar == "" && strings.HasPrefix(r, "fmt.Sprintf(\"") {
 				t.respVar = id.Name
 				return ".reply"
+			}
+		}
+	}
+	if t.pmAllVal != "" && s.Tok == token.ASSIGN && t.src(lhs) == t.pmAllSlice+"["+t.pmAllIdx+"]" {
+		if x, ok := t.expr(rhs); ok {
+			return "(.setPcur " + x + ")"
+		}
+		return t.unk(s)
+	}
+	if t.replyMode && len(t.loops) == 0 && s.Tok == token.DEFINE && t.respVar == "" {
+		// resp := strings.Builder{}  /  resp := fmt.Sprintf("…", <ints of the language>): a local that only holds the reply
+		if id, ok := lhs.(*ast.Ident); ok && id.Name != "_" {
+			if _, isLocal := t.locals[id.Name]; !isLocal && t.loopIndex(id.Name) < 0 {
+				if t.src(rhs) == "strings.Builder{}" {
+					t.respVar = id.Name
+					return ".reply"
+				}
+				if call, ok := rhs.(*ast.CallExpr); ok && t.src(call.Fun) == "fmt.Sprintf" && len(call.Args) >= 1 {
+					if _, isStr := call.Args[0].(*ast.BasicLit); isStr {
+						good := true
+						for _, a := range call.Args[1:] {
+							if _, ok := t.expr(a); !ok {
+								good = false
+							}
+						}
+						if good {
+							t.respVar = id.Name
+							return ".reply"
+						}
+					}
+				}
 			}
 		}
 	}
@@ -1627,6 +1674,18 @@ func (t *btr) stmt(s ast.Stmt) string {
 				return ".clipPush"
 			}
 		}
+		if t.replyMode && len(t.loops) == 0 && len(call.Args) == 1 {
+			_, argIsLit := call.Args[0].(*ast.BasicLit)
+			arg := t.src(call.Args[0])
+			switch {
+			case fun == "vt.postEvent":
+				return ".post"
+			case t.respVar != "" && fun == t.respVar+".WriteString" && argIsLit:
+				return ".reply"
+			case fun == "vt.pty.WriteString" && (argIsLit || (t.respVar != "" && (arg == t.respVar || arg == t.respVar+".String()"))):
+				return ".reply"
+			}
+		}
 		if fun == "log.Error" && len(call.Args) == 1 {
 			if _, isStr := call.Args[0].(*ast.BasicLit); isStr {
 				return ".logErr"
@@ -1822,6 +1881,10 @@ func genBodies(c *ex.Ctx) {
 		{"esc.go", "esc", "esc", "\"(B\"", "esc_arm_2842"}, {"esc.go", "esc", "esc", "\")B\"", "esc_arm_2942"},
 		{"esc.go", "esc", "esc", "\"*B\"", "esc_arm_2a42"}, {"esc.go", "esc", "esc", "\"+B\"", "esc_arm_2b42"},
 		{"c0.go", "c0", "r", "0x0E", "c0_arm_0e"}, {"c0.go", "c0", "r", "0x0F", "c0_arm_0f"},
+		// the arms that only answer the child / post an event / are empty
+		{"csi.go", "csi", "csi", "\"c\"", "csi_arm_63"}, {"csi.go", "csi", "csi", "\">c\"", "csi_arm_3e63"},
+		{"csi.go", "csi", "csi", "\"n\"", "csi_arm_6e"}, {"csi.go", "csi", "csi", "\"$p\"", "csi_arm_2470"},
+		{"esc.go", "esc", "esc", "\"#8\"", "esc_arm_2338"}, {"c0.go", "c0", "r", "0x07", "c0_arm_07"},
 	}
 	for _, want := range inlines {
 		f, ok := files[want.file]
@@ -1837,6 +1900,7 @@ func genBodies(c *ex.Ctx) {
 				if want.fn == "csi" {
 					t.pmName = "params" // csi(csi string, params [][]int)
 				}
+				t.replyMode = true
 				if sw := findSwitch(fd, want.tag, c); sw != nil {
 					for _, st := range sw.Body.List {
 						cc := st.(*ast.CaseClause)
@@ -1856,6 +1920,10 @@ func genBodies(c *ex.Ctx) {
 		}
 		emit(want.name, t, body)
 	}
+	// csi(): the statements in front of the dispatch switch (the parameter clamp)
+	genCsiPre(c, emit)
+	// update(): the type switch over the kinds of parsed sequence
+	genUpdate(c, &sb)
 	// cutString (osc.go) is a primitive of the language (`Stmt.cut`, meaning `cutSemi`): its source text is a generated fact
 	cutSrc := "not found"
 	if f := c.Parse("widgets/term/osc.go"); f != nil {
